@@ -35,6 +35,9 @@ TYPES = {
         ('XRoot', ['rootname']), ('XList', []), ('XItem', ['expr', 'key']), ('XConst', ['val']),
         ('XBin', ['binop', 'expr', 'expr']), ('XUn', ['unop', 'expr']), ('XFunc', ['func', 'expr']),
     ],
+    'pname': [('NThis', []), ('NObj', []), ('NLst', []), ('NFunc', ['func']), ('NTrue', []), ('NFalse', []), ('NNone', [])],
+    'tok': [('TLP', []), ('TRP', []), ('TLB', []), ('TRB', []), ('TOp', ['binop']), ('TNot', []), ('TName', ['pname']),
+            ('TInt', ['N']), ('TStr', [L('N')]), ('TBytes', ['bytes'])],
     'endian': [('Big', []), ('Little', [])],
     'fcode': [(o, []) for o in 'FB FH FL FQ Fb Fh Fl Fq Fe Ff Fd'.split()],
     'bfun': [(o, []) for o in 'BFbytes2bits BFbits2bytes BFswapbytes BFswapbitsinbytes'.split()],
@@ -94,6 +97,8 @@ TYPES = {
         ('RKsyEmit', ['con']),
         ('RKsyInterp', ['kschema', KW, 'bytes']),
         ('RKsyLayout', ['con', KW, 'bytes']),
+        ('RExprPrint', ['expr']),
+        ('RExprRead', [L('tok')]),
     ],
     'lout': [('LVal', ['val', 'Z']), ('LErr', ['err'])],
     'step': [('SKey', [NAME]), ('SIdx', ['nat'])],
@@ -113,6 +118,8 @@ TYPES = {
         ('ROkLazy', ['Z', L('lout')]),
         ('ROkKsy', [O('kschema')]),
         ('ROkFields', [L(P(P(P(O(NAME), 'Z'), 'Z'), 'val'))]),
+        ('ROkToks', [O(L('tok'))]),
+        ('ROkExpr', [O('expr')]),
         ('RErr', ['err', O(L(NAME))]),
     ],
 }
